@@ -299,6 +299,8 @@ func runTimed(sc timedScen, idx int) (*timedTrace, error) {
 		defer cc.Close()
 		vh.RegisterRec(cc.LocalAddr().String(), rec)
 		defer vh.UnregisterRec(cc.LocalAddr().String())
+		vh.RegisterRec(pc.LocalAddr().String()+"|"+cc.LocalAddr().String(), rec)
+		defer vh.UnregisterRec(pc.LocalAddr().String() + "|" + cc.LocalAddr().String())
 		rec.T0 = time.Now()
 		go client(func(b []byte) error { _, err := cc.Write(b); return err }, stop)
 		// the association ends when matching is abandoned or the handler returns: wait for either
@@ -371,7 +373,9 @@ func init() {
 		// a UDP association has no socket of its own whose Close could be observed: the hook in packetConn.Close says so
 		layer4.SetVerifHook(func(point string, obj any) {
 			if point == "udp.close.closed" {
-				if r := vh.RecByAddr(layer4.VerifPacketConnAddr(obj)); r != nil {
+				// (keyed by server socket AND client address: client ports are reused from scenario to scenario, and an
+				// association of a finished scenario may be closed while the next one already uses its port)
+				if r := vh.RecByAddr(layer4.VerifPacketConnKey(obj)); r != nil {
 					r.Add(vh.Ev{"e": "Closed"})
 				}
 			}
